@@ -1986,8 +1986,9 @@ impl XmlDocumentTypeDeclaration {
                             let entity = XmlEntity::node(v, declaration_id, context);
                             declaration.borrow_mut().push_child(entity);
                         }
-                        parser::DeclarationEntity::ParameterEntity(_) => {
-                            unimplemented!("Not support parameter entity reference.")
+                        parser::DeclarationEntity::ParameterEntity(v) => {
+                            // Not support parameter entity.
+                            return Err(error::Error::InvalidData(format!("% {}", v.name)));
                         }
                     },
                     parser::DeclarationMarkup::Notation(v) => {
@@ -1999,8 +2000,9 @@ impl XmlDocumentTypeDeclaration {
                         declaration.borrow_mut().push_child(pi);
                     }
                 },
-                parser::InternalSubset::ParameterEntityReference(_) => {
-                    unimplemented!("Not support parameter entity reference.")
+                parser::InternalSubset::ParameterEntityReference(v) => {
+                    // Not support parameter entity reference.
+                    return Err(error::Error::InvalidData(format!("%{};", v)));
                 }
                 parser::InternalSubset::Whitespace(_) => {
                     // drop
@@ -4321,8 +4323,9 @@ fn attr_value_from_name(name: &str, context: &Context) -> error::Result<String> 
                 let v = attr_value_from_name(v, context)?;
                 parsed.push_str(v.as_str());
             }
-            XmlEntityValue::Parameter(_) => {
-                unimplemented!("Not support parameter entity reference.")
+            XmlEntityValue::Parameter(v) => {
+                // Not support parameter entity reference.
+                return Err(error::Error::InvalidData(format!("%{};", v)));
             }
             XmlEntityValue::Text(v) => parsed.push_str(normalize_ws(v).as_str()),
         }
